@@ -30,6 +30,27 @@ LITERALS = ["0", "1", "2", "3", "4", "7", "-1", "-2", "0x10", "1.5", "0.5", "2.0
 MASKS = ["x", "y", "z", "w", "xy", "yx", "zw", "xyz", "zyx", "xyzw", "wzyx", "xx", "r", "g", "rg", "rgb", "bgr", "rgba", "xxxx", "a"]
 
 SEEDS = [
+    # every kind of int-valued expression used as an index (a float sneaking in fails as an index, not as a value)
+    """int[8] tab;
+float4 v4;
+export function f (int2 iv, int3 w, int k, float x, uint u) -> float {
+  int2 q = iv / 2;
+  int2 q2 = iv / k;
+  int3 r = w % int3(2, 3, 4);
+  int3 c = w > r;
+  int3 d = (w == r) || c;
+  int j = x;
+  int m = x * 2.5;
+  uint n = u / 2;
+  int2 s = iv * 2 - q;
+  float acc = tab[q.x] + tab[q[1]] + tab[q2.y] + tab[r.z] + tab[c.x] + tab[d[2]] + tab[j] + tab[m] + tab[n] + tab[s.x];
+  acc = acc + v4[c.y] + v4[r.x] + v4[k / 3] + v4[k % 4] + v4[u % 4];
+  tab[q.y] = k;
+  tab[c.z] += 1;
+  v4[d.x] = x;
+  return acc + tab[k / 2] + tab[(k > 1) + (x < 2.0)];
+}
+""",
     # uint and mixed scalars
     """uint gu;
 export function f (uint a, int b, float c) -> float {
